@@ -3,7 +3,8 @@
 (* Implementation-shaped model of SexpHash (zygo/hashutils.go): the three  *)
 (* redundant structures Map (buckets by hash code), KeyOrder and NumKeys,  *)
 (* with HashSet / HashDelete / HashGetDefault / HashPairi / HashCountKeys  *)
-(* transcribed as written (after commit "fix: HashDelete ...").            *)
+(* transcribed as written (after commit "fix: HashDelete ..." and with the *)
+(* key stripping of hashKeyOf; StripOnce = TRUE gives the code before it). *)
 (*                                                                         *)
 (* TLC checks the refinement HashImpl => HashMap over every history: the   *)
 (* same operation is applied to the abstract content and to the            *)
@@ -16,6 +17,9 @@ EXTENDS HashMap, TLC
 CONSTANT Code(_)       \* bucket code of a (normalised) key: hashHelper
 CONSTANT DelAsPinned   \* TRUE: HashDelete as in the pinned commit 0bde712 (defect, kept as a
                        \* named deviation so that TLC can exhibit the counterexample histories)
+CONSTANT StripOnce     \* TRUE: the entry points unwrap ONE one-element array and HashGet one more
+                       \* (the code before hashKeyOf: [[x]] is stored as the array [x], which the
+                       \* lookups made for hpair/range/str/json unwrap again and miss); FALSE: hashKeyOf
 VARIABLES buckets,     \* code -> Seq(<<key, val>>)   (hash.Map)
           order,       \* Seq(key)                    (hash.KeyOrder)
           numKeys,     \* Nat                         (hash.NumKeys)
@@ -23,46 +27,65 @@ VARIABLES buckets,     \* code -> Seq(<<key, val>>)   (hash.Map)
 
 ivars == <<content, out, buckets, order, numKeys, iout>>
 
-BCode(k) == Code(NK(k))
+(* the generic comparison (Compare): a character equals the integer with its code, arrays are   *)
+(* compared element by element -- nothing is unwrapped here                                     *)
+RECURSIVE CN(_)
+CN(k) == CASE k[1] = "chr" -> <<"int", k[2]>>
+           [] k[1] = "arr" -> <<"arr", [i \in 1..Len(k[2]) |-> CN(k[2][i])]>>
+           [] OTHER -> k
+CmpEq(a, b) == CN(a) = CN(b)
+
+(* what HashSet / HashGetDefault / HashDelete do to the key they are given.  The model keeps   *)
+(* keys in Compare's normal form CN: which of the spellings 'c' / 99 is stored where (KeyOrder  *)
+(* keeps the first, the bucket the latest) shows in no result, results are compared in normal   *)
+(* form (NormRes)                                                                               *)
+Strip1(k) == IF k[1] = "arr" /\ Len(k[2]) = 1 THEN k[2][1] ELSE k
+Strip(k) == CN(IF StripOnce THEN Strip1(k) ELSE UW(k))
+
+(* below, k is a key as stored/stripped *)
+BCode(k) == Code(CN(k))
 HasBucket(b, k) == BCode(k) \in DOMAIN b
 Bucket(b, k) == IF HasBucket(b, k) THEN b[BCode(k)] ELSE <<>>
 
 FirstMatch(s, k) ==  \* index of first pair whose key equals k, 0 if none
-    IF \E i \in 1..Len(s) : KeyEq(s[i][1], k)
-    THEN CHOOSE i \in 1..Len(s) : KeyEq(s[i][1], k) /\ \A j \in 1..(i-1) : ~KeyEq(s[j][1], k)
+    IF \E i \in 1..Len(s) : CmpEq(s[i][1], k)
+    THEN CHOOSE i \in 1..Len(s) : CmpEq(s[i][1], k) /\ \A j \in 1..(i-1) : ~CmpEq(s[j][1], k)
     ELSE 0
 
 FirstKey(s, k) ==
-    IF \E i \in 1..Len(s) : KeyEq(s[i], k)
-    THEN CHOOSE i \in 1..Len(s) : KeyEq(s[i], k) /\ \A j \in 1..(i-1) : ~KeyEq(s[j], k)
+    IF \E i \in 1..Len(s) : CmpEq(s[i], k)
+    THEN CHOOSE i \in 1..Len(s) : CmpEq(s[i], k) /\ \A j \in 1..(i-1) : ~CmpEq(s[j], k)
     ELSE 0
 
 SetBucket(b, k, s) == [c \in (DOMAIN b) \cup {BCode(k)} |-> IF c = BCode(k) THEN s ELSE b[c]]
 
 (* HashGetDefault *)
-IGet(b, k, d) == LET s == Bucket(b, k) i == FirstMatch(s, k) IN IF i = 0 THEN d ELSE s[i][2]
+IGet(b, k0, d) == LET k == Strip(k0) s == Bucket(b, k) i == FirstMatch(s, k) IN IF i = 0 THEN d ELSE s[i][2]
 Missing == <<"end">>     \* SexpEnd, the sentinel HashGet uses
+(* HashGet: unwraps on its own, then HashGetDefault; hget, and the lookups of the keys of *)
+(* KeyOrder made for hpair, range, str and json, come through here                        *)
+IHashGet(b, k0) == IGet(b, IF StripOnce THEN Strip1(k0) ELSE k0, Missing)
 
-(* HashSet: the array-unwrapping and the key normalisation are NK *)
-ISet(k, v) ==
-    LET s == Bucket(buckets, k) IN
+(* HashSet *)
+ISet(k0, v) ==
+    LET k == Strip(k0) s == Bucket(buckets, k) IN
     IF ~HasBucket(buckets, k)
-    THEN /\ buckets' = SetBucket(buckets, k, << <<NK(k), v>> >>)
-         /\ order' = Append(order, NK(k))
+    THEN /\ buckets' = SetBucket(buckets, k, << <<k, v>> >>)
+         /\ order' = Append(order, k)
          /\ numKeys' = numKeys + 1
-    ELSE LET found == \E i \in 1..Len(s) : KeyEq(s[i][1], k)
-             repl == [i \in 1..Len(s) |-> IF KeyEq(s[i][1], k) THEN <<NK(k), v>> ELSE s[i]]
+    ELSE LET found == \E i \in 1..Len(s) : CmpEq(s[i][1], k)
+             repl == [i \in 1..Len(s) |-> IF CmpEq(s[i][1], k) THEN <<k, v>> ELSE s[i]]
          IN IF found
             THEN /\ buckets' = SetBucket(buckets, k, repl)
                  /\ UNCHANGED <<order, numKeys>>
-            ELSE /\ buckets' = SetBucket(buckets, k, Append(s, <<NK(k), v>>))
-                 /\ order' = Append(order, NK(k))
+            ELSE /\ buckets' = SetBucket(buckets, k, Append(s, <<k, v>>))
+                 /\ order' = Append(order, k)
                  /\ numKeys' = numKeys + 1
 
 (* HashDelete, as repaired; with DelAsPinned the original: the counter is   *)
 (* decremented whenever the bucket exists and KeyOrder is never pruned     *)
-IDel(k) ==
-    LET s == Bucket(buckets, k) i == FirstMatch(s, k) j == FirstKey(order, k) IN
+IDel(k0) ==
+    LET k == Strip(k0) s == Bucket(buckets, k) i == FirstMatch(s, k) j == FirstKey(order, k) IN
     IF DelAsPinned
     THEN IF ~HasBucket(buckets, k) THEN UNCHANGED <<buckets, order, numKeys>>
          ELSE /\ numKeys' = numKeys - 1
@@ -85,26 +108,28 @@ BucketTotal(b) ==
 IPair(i) ==
     IF i < 0 \/ i >= Len(order) THEN Err
     ELSE IF i > numKeys THEN Err
-    ELSE LET live == {p \in (i+1)..Len(order) : IGet(buckets, order[p], Missing) # Missing} IN
+    ELSE LET live == {p \in (i+1)..Len(order) : IHashGet(buckets, order[p]) # Missing} IN
          IF live = {} THEN Err   \* the Go code panics; CallUserFunction turns it into an error
          ELSE LET p == CHOOSE p \in live : \A q \in live : p <= q IN
-              <<"list", <<order[p], IGet(buckets, order[p], Missing)>>>>
+              <<"list", <<NK(order[p]), IHashGet(buckets, order[p])>>>>
 
+(* results show keys in the normal form in which the abstract machine shows them (NormRes) *)
 LivePairs ==
-    LET idx == {p \in 1..Len(order) : IGet(buckets, order[p], Missing) # Missing}
+    LET idx == {p \in 1..Len(order) : IHashGet(buckets, order[p]) # Missing}
         RECURSIVE Build(_)
         Build(p) == IF p > Len(order) THEN <<>>
-                    ELSE IF p \in idx THEN << <<order[p], IGet(buckets, order[p], Missing)>> >> \o Build(p+1)
+                    ELSE IF p \in idx THEN << <<NK(order[p]), IHashGet(buckets, order[p])>> >> \o Build(p+1)
                     ELSE Build(p+1)
     IN Build(1)
+OrderShown == [p \in 1..Len(order) |-> NK(order[p])]
 
 IDo(o) ==
     CASE o.op = "hset"  -> ISet(o.k, o.v) /\ iout' = Nil
       [] o.op = "hdel"  -> IDel(o.k) /\ iout' = Nil
-      [] o.op = "hget"  -> /\ iout' = (LET r == IGet(buckets, o.k, Missing) IN IF r = Missing THEN Err ELSE r)
+      [] o.op = "hget"  -> /\ iout' = (LET r == IHashGet(buckets, o.k) IN IF r = Missing THEN Err ELSE r)
                            /\ UNCHANGED <<buckets, order, numKeys>>
       [] o.op = "hgetd" -> iout' = IGet(buckets, o.k, o.v) /\ UNCHANGED <<buckets, order, numKeys>>
-      [] o.op = "keys"  -> iout' = <<"arr", order>> /\ UNCHANGED <<buckets, order, numKeys>>
+      [] o.op = "keys"  -> iout' = <<"arr", OrderShown>> /\ UNCHANGED <<buckets, order, numKeys>>
       [] o.op = "len"   -> iout' = <<"int", BucketTotal(buckets)>> /\ UNCHANGED <<buckets, order, numKeys>>
       [] o.op = "hpair" -> iout' = IPair(o.i) /\ UNCHANGED <<buckets, order, numKeys>>
       [] o.op = "range" -> iout' = <<"pairs", LivePairs>> /\ UNCHANGED <<buckets, order, numKeys>>
@@ -116,6 +141,6 @@ ISpec == IInit /\ [][INext]_ivars
 (* ---- refinement ---- *)
 Refines     == iout = out /\ LivePairs = PairsOf(content)
 CountAgrees == BucketTotal(buckets) = numKeys            \* else HashCountKeys panics
-OrderExact  == Len(order) = numKeys /\ KeysOf(content) = order
+OrderExact  == Len(order) = numKeys /\ KeysOf(content) = OrderShown
 Bounded     == Len(content) <= MaxLen
 =============================================================================
